@@ -80,6 +80,9 @@ def diagnostics_corpus():
     # match hanging over the end of the file; far-away stated line
     out.append(mk({b"f": F(body)}, hunk(7, [b"l7", b"l8", b"l9", b"l10"], [b"l7", b"Q"])))
     out.append(mk({b"f": F(body)}, hunk(4000, [b"l7", b"nope"], [b"l7", b"Q"])))
+    # a huge stated line on a one-line file, one hunk line matching (the distance term of the hint search)
+    out.append(mk({b"f": F(b"bbb\n")}, b"--- a/f\n+++ b/f\n@@ -99999999999999999,3 +99999999999999999,3 @@\n aaa\n-bbb\n+BBB\n ccc\n"))
+    out.append(mk({b"f": F(b"l1\nl2\n")}, b"--- a/f\n+++ b/f\n@@ -9223372036854775807,2 +9223372036854775807,2 @@\n l1\n-nope\n+x\n"))
     # two failing entries for one file, and a failing entry after one that applied to the same file
     two = hunk(1, [b"l1", b"X"], [b"l1", b"Y"]) + hunk(5, [b"l5", b"X"], [b"l5", b"Y"])
     out.append(mk({b"f": F(body)}, two))
@@ -136,6 +139,8 @@ def run(ctx):
     for item in todo:
         w = item if item is not None else special(rng, l3gen.gen_workspace(rng, fail_prob=0.45))
         cfg = l3common.rand_cfg(rng, threads=(1, 1, 2, 4))
+        if item is not None:
+            cfg["fuzz"] = 0          # the corpus is about hunks that fail: no fuzz to let them through
         cfg["extra"] = ["-q"]
         base, out0, _ = l3gen.run_real(ctx.binary, w, cfg)
         cases.append((w, cfg))
